@@ -183,7 +183,7 @@ class Monitor:
                 if obs["reward"] != step_r + bonus:
                     self.hit("C05", "final reward", f"final observation of a {role} with reason {reason} carries reward {obs['reward']}, expected {step_r + bonus}")
                 if role == "Attacker":
-                    goal_ok = self.CR.ref_goal(self.goals["Attacker"], obs["state"])
+                    goal_ok = self.CR.ref_goal(self.goals["Attacker"], self.S.view_back(obs["state"]))
                     if (reason == "Success") != goal_ok:
                         self.hit("C04", "success reason", f"attacker's end reason is {reason} but the goal is {'reached' if goal_ok else 'not reached'} in the final view")
                     ms = self.cfg["coordinator"]["agents"]["Attacker"].get("max_steps")
@@ -271,6 +271,21 @@ class Monitor:
         """C01: every request is answered unless one of the three barriers holds it back."""
         g = self.S.g
         self.scan_outputs()
+        extra = self.S.d.extra_timers()
+        if extra > 0 and not getattr(self, "_timers_reported", False):
+            self._timers_reported = True
+            # the coordinator armed a timer beyond its idle heart-beats: what it does next depends on wall-clock time.  Let the
+            # time pass (virtual clock) and look at what the agents get.
+            self.hit(["C01", "C06", "C07", "C15"], "timer armed",
+                     f"at quiescence the coordinator has {extra} timer(s) armed beyond its idle heart-beats: an answer now depends on how long a barrier takes (the protocol and the model know no time-outs)")
+            before = {a: len(c.writer.chunks) for a, c in self.S.d.conns.items()}
+            self.S.d.advance_time(86400)
+            self.scan_outputs()
+            for a, c in self.S.d.conns.items():
+                new = c.writer.chunks[before.get(a, 0):]
+                if new:
+                    self.hit(["C01", "C15"], "answer produced by the passing of time",
+                             f"after time passed the coordinator sent {[decode(r).get('status') if r.endswith(b'EOF') else r[:40] for r in new][:3]} to an agent whose request is held at a barrier: that request will later be answered a second time, and every later answer is paired with the wrong request")
         for addr, c in self.S.d.conns.items():
             nreq = self.consumed.get(addr, 0)
             nresp = len(c.writer.chunks)
@@ -295,6 +310,9 @@ class Monitor:
                                                (not g._episode_start_event.is_set() and len(g.agents) < self.required))
                 if not ok:
                     self.hit("C01", f"unanswered {kind}", f"a {kind} request is unanswered at quiescence although no barrier holds it back")
+                    if c.reader._eof or c.reader._exception is not None:
+                        self.hit(["C18", "C10"], "slot of an ended connection not given back",
+                                 f"the peer of a connection has gone (EOF / reset) but at quiescence the connection is still being served - its {kind} request was never answered, so the handler never reads again and the slot stays taken")
                 self.count(f"parked:{kind}")
 
     world_result = None
@@ -384,7 +402,7 @@ def instrument(S, cfg, CR, goals):
     return M
 
 
-def run_sessions(ctx, prop, n_sessions, gen_opts, cfg_opts=None, extra_monitor=None, n_directed=30):
+def run_sessions(ctx, prop, n_sessions, gen_opts, cfg_opts=None, extra_monitor=None, n_directed=32):
     """Generate sessions, follow them with the model, collect this property's monitor hits."""
     CG, CR, nsgenv = _imports()
     rng0 = random.Random(ctx.seed * 104729 + int(prop[1:]))
